@@ -324,6 +324,9 @@ func execC10(t *testing.T, c any, o *Outcome) {
 			}
 		}
 	}
+	if pc.Chunk == 1 && fkind == "" && len(o.Viols) == 0 {
+		checkSupportCLI(t, o, pc, pc.Algo)
+	}
 	if f, tb := results["fbp"], results["tbe"]; f != nil && tb != nil {
 		for _, k := range sortedKeys(f) {
 			fv, tv := f[k], tb[k]
